@@ -415,12 +415,12 @@ def ProofD.reconstructZ (pk : PublicKey) (p : ProofD) : GoM (Option Int) := do
       | some rs => return some (knownC * ae * rs * sv % pk.n)
     | _, _, _ => return none
 
-/-- candidates of `revocationAttrIndex`: hidden responses below `2^(AttributeSize+ChallengeLength+ZkStat+1)`;
-    Go returns the first one in (random) map order, −1 if none. -/
+/-- candidates of `revocationAttrIndex`: hidden responses below `2^(AttributeSize+ChallengeLength+ZkStat+1)`,
+    the secret key (index 0) excepted; Go returns the first one in (random) map order, −1 if none. -/
 def ProofD.revocationCandidates (p : ProofD) : List Int :=
   let max : Int := 2 ^ (Gen.revAttributeSize + Gen.revChallengeLength + Gen.revZkStat + 1)
   p.aResponses.filterMap (fun kv => match kv.2 with
-    | some r => if r < max then some kv.1 else none
+    | some r => if kv.1 ≠ 0 ∧ r < max then some kv.1 else none
     | none => none)
 
 /-- error-returning computations on the verification path: `failure` = Go `error` return,
